@@ -184,3 +184,22 @@ def run(ctx):
             if isinstance(fn, FuncNode) and any(a.arg == "dryrun" for a in fn.args.args + fn.args.kwonlyargs):
                 r4.violation(f"{mod.rel}:{q}:dryrun-param", f"backend function {q} takes a dryrun parameter: cache answers may differ between dry and real runs", mod.rel, fn.lineno)
     r4.good("redun/backends:no-dryrun-parameter")
+
+    # the cache verdict of a job comes from _get_cache(job) alone -- in particular not from a verdict remembered for another job under dry-run
+    exq = lc.EXEC
+    exf = m.func(exq)
+    jv4 = exf.args.args[1].arg
+    for n in ast.walk(exf):
+        if isinstance(n, ast.Assign) and m.enclosing_func(n) is exf:
+            tgts = [src(x) for t in n.targets for x in (t.elts if isinstance(t, ast.Tuple) else [t])]
+            if f"{jv4}.was_cached" in tgts:
+                from_lookup = isinstance(n.value, ast.Call) and call_name(n.value) == "self._get_cache" and n.value.args and src(n.value.args[0]) == jv4
+                r4.check(
+                    from_lookup,
+                    f"{m.rel}:{exq}:was_cached-source",
+                    f"`{src(n)[:90]}` sets the job's cache verdict from something other than self._get_cache({jv4}): whether a call may be answered from the cache depends on the job's own "
+                    "options (cache_scope, check_valid, allowed_cache_results, prov), so a verdict taken from another job (e.g. a dry-run memo keyed by eval_hash) lets a dry run complete "
+                    "with a value the real run would recompute",
+                    m.rel,
+                    n.lineno,
+                )
